@@ -23,137 +23,151 @@ CORRESPONDENCE = "m_dropna_nested (Frame.v) vs NestedFrame.dropna"
 EXTRA_IMPORTS = "Frame Targets"
 
 
+
+def _uninterpretable(i, pid):
+    """an exception while a case was being built from what the library returned: a verdict about the library (the stream runs
+    on the unchanged tree with many seeds without ever getting here), not a crash of the check"""
+    import traceback
+    return {"stream": "uninterpretable", "op": "uninterpretable", "term": "[true; false; true; true]",
+            "input": {"case_number": i}, "impl_repr": "the case could not be built / interpreted: " + traceback.format_exc()[-700:],
+            "meta": {"impl_raised": True}, "sig": ["uninterpretable", pid, i], "trivial": False,
+            "hist": {"op": "uninterpretable"}}
+
+
 def generate(ctx):
     rng = ctx.rng
     cases = []
     for i in range(ctx.budget(140, 1300)):
-        schema = gen.spice_names(rng, gen.gen_schema(rng, 4))
-        n = rng.randint(0, 7 if ctx.tier == "quick" else 12)
-        rows_g = gen.gen_rows(rng, schema, n, max_len=5, null_p=0.0 if i % 6 == 5 else 0.3)     # now and then: nothing to drop
-        if i % 40 == 0:
-            rows_g = []
-        recipe = fo.LAYOUTS[i % len(fo.LAYOUTS)] if i < len(fo.LAYOUTS) else rng.choice(fo.LAYOUTS)
-        inp = ao.mk_input(rng, content=(schema, rows_g), recipe=recipe, recipes=fo.LAYOUTS)
-        if inp.get("history_failed"):
-            cases.append(ao.history_failure_case(inp))
-            continue
-        if inp["built"][0] != "ok":
-            continue
-        schema = inp["schema"]
-        names = [nm for nm, _ in schema]
-        nf, labels, label_kind = fo.make_frame(rng, inp)
-        rows = fo.rows_rm(inp["ca"])
-        kind = ["on_nested", "subset", "both", "subset", "on_nested", "base", "base_subset", "conflict", "two_layers", "unknown_layer"][i % 10]
-        how = rng.choice(["any", "all", None, None])
-        thresh = rng.choice([0, 1, 2, len(names), len(names) + 1]) if (how is None and rng.random() < 0.5) else None
-        sub = rng.sample(names, rng.randint(1, min(3, len(names)))) if kind in ("subset", "both") or (kind == "on_nested" and rng.random() < 0.0) else None
-        if i % 6 == 5 and rng.random() < 0.7:
-            # nothing is null: 'any' / 'all' have nothing to drop, but a threshold above the number of considered fields drops everything
-            how, thresh = None, rng.choice([(len(sub) if sub else len(names)) + 1, len(names), 1])
-        inplace = rng.random() < 0.3
-        kw = {}
-        if how is not None:
-            kw["how"] = how
-        if thresh is not None:
-            kw["thresh"] = thresh
-        if kind == "on_nested":
-            kw["on_nested"] = "n"
-        elif kind == "subset":
-            kw["subset"] = [f"n.{f}" for f in sub] if (len(sub) > 1 or rng.random() < 0.5) else f"n.{sub[0]}"
-        elif kind == "both":
-            kw["on_nested"] = "n"
-            kw["subset"] = [f"n.{f}" for f in sub]
-        elif kind == "base_subset":
-            kw["subset"] = rng.choice([["w"], ["w", "n"], ["n"], "n", ["other", "w"]])
-        elif kind == "conflict":
-            kw["on_nested"] = "other"
-            kw["subset"] = [f"n.{names[0]}"]
-        elif kind == "two_layers":
-            kw["subset"] = rng.choice([[f"n.{names[0]}", "other.q"], [f"n.{names[0]}", "w"]])
-        elif kind == "unknown_layer":
-            kw["subset"] = ["nope.a"] if rng.random() < 0.5 else None
-            kw["on_nested"] = "nope" if kw["subset"] is None else False
-            if kw["subset"] is None:
-                del kw["subset"]
-        before = fo.snapshot(nf, skip=("n",))
-        whole = fo.snapshot(nf)
-
-        def run():
-            target = nf.copy() if inplace else nf
-            out = target.dropna(inplace=inplace, **kw)
-            out = target if inplace else out
-            assert isinstance(out, NestedFrame), "not a NestedFrame"
-            return out
-        res = attempt(run)
-        unchanged = fo.snapshot(nf) == whole
-        how_t = {"any": "HowAny", "all": "HowAll", None: "HowAny"}[how] if thresh is None else f"(HowThresh {thresh})"
-        nontrivial = False
-        if kind in ("on_nested", "subset", "both"):
-            sub_t = "None" if sub is None else f"(Some {cq_nats([names.index(f) for f in sub])})"
-            ok_frame = res[0] == "ok" and fo.snapshot(res[1], skip=("n",)) == before and list(res[1].columns) == list(nf.columns)
-            impl = ("ok", fo.rows_rm(res[1]["n"].array.chunked_array)) if res[0] == "ok" else res
-            term = (f"(match chk_rows (m_dropna_nested {fo.cq_nrows(rows)} {how_t} {sub_t}) "
-                    f"(Ok (spec_filter_rows (complete {how_t} {sub_t}) {fo.cq_nrows(rows)})) {fo.cq_res_nrows(impl)} with "
-                    f"[a; b; c; s] => [a; b && {cq_bool(ok_frame and unchanged)}; c; s] | l => l end)")
-            if res[0] == "ok":
-                nontrivial = fo.cq_nrows(impl[1]) != fo.cq_nrows(rows) and any(r for r in impl[1])
-        elif kind in ("base", "base_subset"):
-            cols = kw.get("subset")
-            cols = [cols] if isinstance(cols, str) else (cols or ["x", "y", "w", "n", "other"])
-            otherv = nf["other"].array.chunked_array.to_pylist()
-            wv = nf["w"].tolist()
-
-            def na(j, c):
-                if c == "n":
-                    return rows[j] is None
-                if c == "other":
-                    return otherv[j] is None
-                if c == "w":
-                    return wv[j] is None or wv[j] is pd.NA
-                return False
-            cnt = [sum(0 if na(j, c) else 1 for c in cols) for j in range(len(rows))]
+        try:
+            schema = gen.spice_names(rng, gen.gen_schema(rng, 4))
+            n = rng.randint(0, 7 if ctx.tier == "quick" else 12)
+            rows_g = gen.gen_rows(rng, schema, n, max_len=5, null_p=0.0 if i % 6 == 5 else 0.3)     # now and then: nothing to drop
+            if i % 40 == 0:
+                rows_g = []
+            recipe = fo.LAYOUTS[i % len(fo.LAYOUTS)] if i < len(fo.LAYOUTS) else rng.choice(fo.LAYOUTS)
+            inp = ao.mk_input(rng, content=(schema, rows_g), recipe=recipe, recipes=fo.LAYOUTS)
+            if inp.get("history_failed"):
+                cases.append(ao.history_failure_case(inp))
+                continue
+            if inp["built"][0] != "ok":
+                continue
+            schema = inp["schema"]
+            names = [nm for nm, _ in schema]
+            nf, labels, label_kind = fo.make_frame(rng, inp)
+            rows = fo.rows_rm(inp["ca"])
+            kind = ["on_nested", "subset", "both", "subset", "on_nested", "base", "base_subset", "conflict", "two_layers", "unknown_layer"][i % 10]
+            how = rng.choice(["any", "all", None, None])
+            thresh = rng.choice([0, 1, 2, len(names), len(names) + 1]) if (how is None and rng.random() < 0.5) else None
+            sub = rng.sample(names, rng.randint(1, min(3, len(names)))) if kind in ("subset", "both") or (kind == "on_nested" and rng.random() < 0.0) else None
+            if i % 6 == 5 and rng.random() < 0.7:
+                # nothing is null: 'any' / 'all' have nothing to drop, but a threshold above the number of considered fields drops everything
+                how, thresh = None, rng.choice([(len(sub) if sub else len(names)) + 1, len(names), 1])
+            inplace = rng.random() < 0.3
+            kw = {}
+            if how is not None:
+                kw["how"] = how
             if thresh is not None:
-                keep = [c >= thresh for c in cnt]
-            elif how == "all":
-                keep = [c > 0 for c in cnt]
+                kw["thresh"] = thresh
+            if kind == "on_nested":
+                kw["on_nested"] = "n"
+            elif kind == "subset":
+                kw["subset"] = [f"n.{f}" for f in sub] if (len(sub) > 1 or rng.random() < 0.5) else f"n.{sub[0]}"
+            elif kind == "both":
+                kw["on_nested"] = "n"
+                kw["subset"] = [f"n.{f}" for f in sub]
+            elif kind == "base_subset":
+                kw["subset"] = rng.choice([["w"], ["w", "n"], ["n"], "n", ["other", "w"]])
+            elif kind == "conflict":
+                kw["on_nested"] = "other"
+                kw["subset"] = [f"n.{names[0]}"]
+            elif kind == "two_layers":
+                kw["subset"] = rng.choice([[f"n.{names[0]}", "other.q"], [f"n.{names[0]}", "w"]])
+            elif kind == "unknown_layer":
+                kw["subset"] = ["nope.a"] if rng.random() < 0.5 else None
+                kw["on_nested"] = "nope" if kw["subset"] is None else False
+                if kw["subset"] is None:
+                    del kw["subset"]
+            before = fo.snapshot(nf, skip=("n",))
+            whole = fo.snapshot(nf)
+
+            def run():
+                target = nf.copy() if inplace else nf
+                out = target.dropna(inplace=inplace, **kw)
+                out = target if inplace else out
+                assert isinstance(out, NestedFrame), "not a NestedFrame"
+                return out
+            res = attempt(run)
+            unchanged = fo.snapshot(nf) == whole
+            how_t = {"any": "HowAny", "all": "HowAll", None: "HowAny"}[how] if thresh is None else f"(HowThresh {thresh})"
+            nontrivial = False
+            if kind in ("on_nested", "subset", "both"):
+                sub_t = "None" if sub is None else f"(Some {cq_nats([names.index(f) for f in sub])})"
+                ok_frame = res[0] == "ok" and fo.snapshot(res[1], skip=("n",)) == before and list(res[1].columns) == list(nf.columns)
+                impl = ("ok", fo.rows_rm(res[1]["n"].array.chunked_array)) if res[0] == "ok" else res
+                term = (f"(match chk_rows (m_dropna_nested {fo.cq_nrows(rows)} {how_t} {sub_t}) "
+                        f"(Ok (spec_filter_rows (complete {how_t} {sub_t}) {fo.cq_nrows(rows)})) {fo.cq_res_nrows(impl)} with "
+                        f"[a; b; c; s] => [a; b && {cq_bool(ok_frame and unchanged)}; c; s] | l => l end)")
+                if res[0] == "ok":
+                    nontrivial = fo.cq_nrows(impl[1]) != fo.cq_nrows(rows) and any(r for r in impl[1])
+            elif kind in ("base", "base_subset"):
+                cols = kw.get("subset")
+                cols = [cols] if isinstance(cols, str) else (cols or ["x", "y", "w", "n", "other"])
+                otherv = nf["other"].array.chunked_array.to_pylist()
+                wv = nf["w"].tolist()
+
+                def na(j, c):
+                    if c == "n":
+                        return rows[j] is None
+                    if c == "other":
+                        return otherv[j] is None
+                    if c == "w":
+                        return wv[j] is None or wv[j] is pd.NA
+                    return False
+                cnt = [sum(0 if na(j, c) else 1 for c in cols) for j in range(len(rows))]
+                if thresh is not None:
+                    keep = [c >= thresh for c in cnt]
+                elif how == "all":
+                    keep = [c > 0 for c in cnt]
+                else:
+                    keep = [c == len(cols) for c in cnt]
+                ok_frame = False
+                if res[0] == "ok":
+                    out = res[1]
+                    kept = [j for j, k in enumerate(keep) if k]
+                    ok_frame = ([int(v) for v in out["x"]] == kept and [repr(v) for v in out.index] == [repr(labels[j]) for j in kept]
+                                and repr(out["other"].array.chunked_array.to_pylist()) == repr([otherv[j] for j in kept]))
+                impl = ("ok", fo.rows_rm(res[1]["n"].array.chunked_array)) if res[0] == "ok" else res
+                sel = f"(Ok (spec_select_rows {fo.cq_nrows(rows)} {cq_bools(keep)}))"
+                term = (f"(match chk_rows {sel} {sel} {fo.cq_res_nrows(impl)} with [a; b; c; s] => [a; b && {cq_bool(ok_frame and unchanged)}; c; s] "
+                        f"| l => l end)")
+                nontrivial = any(keep) and not all(keep)
             else:
-                keep = [c == len(cols) for c in cnt]
-            ok_frame = False
-            if res[0] == "ok":
-                out = res[1]
-                kept = [j for j, k in enumerate(keep) if k]
-                ok_frame = ([int(v) for v in out["x"]] == kept and [repr(v) for v in out.index] == [repr(labels[j]) for j in kept]
-                            and repr(out["other"].array.chunked_array.to_pylist()) == repr([otherv[j] for j in kept]))
-            impl = ("ok", fo.rows_rm(res[1]["n"].array.chunked_array)) if res[0] == "ok" else res
-            sel = f"(Ok (spec_select_rows {fo.cq_nrows(rows)} {cq_bools(keep)}))"
-            term = (f"(match chk_rows {sel} {sel} {fo.cq_res_nrows(impl)} with [a; b; c; s] => [a; b && {cq_bool(ok_frame and unchanged)}; c; s] "
-                    f"| l => l end)")
-            nontrivial = any(keep) and not all(keep)
-        else:
-            term = f"[true; {cq_bool(res[0] == 'err' and unchanged)}; true; true]"
-        # which layer was worked on (Targets.v): the arguments as the parser classifies them against what was observed
-        def entry_t(path):
-            if "." not in path:
-                return "(Some LBase)"
-            head = path.split(".")[0]
-            return {"n": "(Some (LNest 1))", "other": "(Some (LNest 2))"}.get(head, "None")
-        on_v = kw.get("on_nested", False)
-        on_t = "None" if not on_v else {"n": "(Some (Some 1))", "other": "(Some (Some 2))"}.get(on_v, "(Some None)")
-        sub_v = kw.get("subset")
-        sub_t = "None" if sub_v is None else f"(Some {cq_list(entry_t(p_) for p_ in ([sub_v] if isinstance(sub_v, str) else sub_v))})"
-        if res[0] == "err":
-            obs_t = "Err"
-        else:
-            obs_t = "(Ok (LNest 1))" if kind in ("on_nested", "subset", "both") else "(Ok LBase)"
-        term = (f"(match {term} with [a; b; c; s] => [a && res_layer_eqb (m_dropna_target {on_t} {sub_t}) {obs_t}; b; c; s] | l => l end)")
-        cases.append({
-            "stream": "dropna", "op": "dropna_" + kind, "term": term,
-            "input": dict(ao.input_repr(inp), labels=[repr(x) for x in labels], kwargs={k: repr(v) for k, v in kw.items()}, inplace=inplace),
-            "impl_repr": str(res)[:500],
-            "meta": ao.base_meta(inp, impl_raised=res[0] == "err", repeated_labels=len(set(labels)) != len(labels), label_kind=label_kind),
-            "sig": [kind, how, thresh, None if sub is None else len(sub), inp["recipe"], label_kind, len(rows)], "trivial": not nontrivial,
-            "hist": {"op": "dropna_" + kind, "how": str(how), "thresh": str(thresh), "layout": inp["recipe"], "labels": label_kind,
-                     "raised": res[0] == "err"}})
+                term = f"[true; {cq_bool(res[0] == 'err' and unchanged)}; true; true]"
+            # which layer was worked on (Targets.v): the arguments as the parser classifies them against what was observed
+            def entry_t(path):
+                if "." not in path:
+                    return "(Some LBase)"
+                head = path.split(".")[0]
+                return {"n": "(Some (LNest 1))", "other": "(Some (LNest 2))"}.get(head, "None")
+            on_v = kw.get("on_nested", False)
+            on_t = "None" if not on_v else {"n": "(Some (Some 1))", "other": "(Some (Some 2))"}.get(on_v, "(Some None)")
+            sub_v = kw.get("subset")
+            sub_t = "None" if sub_v is None else f"(Some {cq_list(entry_t(p_) for p_ in ([sub_v] if isinstance(sub_v, str) else sub_v))})"
+            if res[0] == "err":
+                obs_t = "Err"
+            else:
+                obs_t = "(Ok (LNest 1))" if kind in ("on_nested", "subset", "both") else "(Ok LBase)"
+            term = (f"(match {term} with [a; b; c; s] => [a && res_layer_eqb (m_dropna_target {on_t} {sub_t}) {obs_t}; b; c; s] | l => l end)")
+            cases.append({
+                "stream": "dropna", "op": "dropna_" + kind, "term": term,
+                "input": dict(ao.input_repr(inp), labels=[repr(x) for x in labels], kwargs={k: repr(v) for k, v in kw.items()}, inplace=inplace),
+                "impl_repr": str(res)[:500],
+                "meta": ao.base_meta(inp, impl_raised=res[0] == "err", repeated_labels=len(set(labels)) != len(labels), label_kind=label_kind),
+                "sig": [kind, how, thresh, None if sub is None else len(sub), inp["recipe"], label_kind, len(rows)], "trivial": not nontrivial,
+                "hist": {"op": "dropna_" + kind, "how": str(how), "thresh": str(thresh), "layout": inp["recipe"], "labels": label_kind,
+                         "raised": res[0] == "err"}})
+        except Exception:  # noqa: BLE001
+            cases.append(_uninterpretable(i, 'C12'))
     for k, c in enumerate(cases):
         c["cid"] = k
     return cases
